@@ -442,7 +442,7 @@ def random_history(rng, role, names, length):
             evs.append(("i", name, rng.choice(ids) if rng.random() < 0.3 else rng.randrange(2 ** 32),
                         rng.choice(ids) if rng.random() < 0.3 else rng.randrange(2 ** 32)))
         elif k == "u":
-            evs.append(("u", rng.randrange(1, 2 ** 32)))
+            evs.append(("u", rng.choice(ids[1:]) if rng.random() < 0.4 else rng.randrange(1, 2 ** 32)))
         else:
             evs.append((k,))
     return evs
